@@ -1263,13 +1263,20 @@ func (o *ovsdbClient) watchForLeaderChange() error {
 	db := o.databases[serverDB]
 	o.rpcMutex.RLock()
 	db.monitorsMutex.Lock()
-	err := o.monitor(context.Background(), newMonitorCookie(serverDB), false, m)
+	cookie := newMonitorCookie(serverDB)
+	err := o.monitor(context.Background(), cookie, false, m)
+	if err != nil && o.options.reconnect {
+		// the connection was lost while the monitor was being set up: the
+		// client reconnects on its own and must watch its endpoint then,
+		// so the monitor is restarted along with the others
+		if _, ok := db.monitors[cookie.ID]; !ok {
+			db.monitors[cookie.ID] = m
+			o.metrics.numMonitors.Inc()
+		}
+	}
 	db.monitorsMutex.Unlock()
 	o.rpcMutex.RUnlock()
-	if err != nil {
-		return err
-	}
-	return nil
+	return err
 }
 
 func (o *ovsdbClient) handleClientErrors(stopCh <-chan struct{}) {
